@@ -61,7 +61,7 @@ theorem dict_push_rowH (ext : Ext) {p : String} {idx vals : B} {index : List Str
   simp only at h
   have hw' := hwf
   simp only [WFH] at hw'
-  have hdv := hw'.2.2.2.2.2.1 hu
+  have hdv := hw'.2.2.2.2.2.1.1 hu
   have hfv := isFlat_of_isUtf8B hu
   split at h
   · rename_i s hs'
@@ -113,9 +113,11 @@ theorem pushScalar_interpH (ext : Ext) : ∀ (b : B) (x : SVal) (b' : B) (dt : D
   | .fixedSizeBinary _ _ _ _ _ _, _, _, _, _, _, _, hw, hs, h, hd, hsm => pushScalar_interp_flat ext rfl hw hs h hd hsm
   | .dictionary p idx vals index, x, b', dt, n, md, lv, hwf, hs, h, hd, _ => by
     simp only [Shape] at hs
-    obtain ⟨⟨kdt, vdt, rfl⟩, hil, _, hu⟩ := hs
-    obtain ⟨s, hs', rfl⟩ := dict_push_rowH ext hwf hil hu h hd
-    exact ⟨by simp only [interpScalar, hs'], rfl⟩
+    obtain ⟨⟨kdt, vdt, rfl, hsv⟩, hil, _, hu⟩ := hs
+    rcases hu with hu | hr
+    · obtain ⟨s, hs', rfl⟩ := dict_push_rowH ext hwf hil hu h hd
+      exact ⟨by simp only [interpScalar, hs', interpDictStr_utf8 ext s hsv hu], rfl⟩
+    · exact (dict_push_refused ext (DictVals.of_wfh hwf).2 hr h).elim
   | .list _ _ _ _ _ _, x, b', _, _, _, _, _, _, h, _, _ => by simp [pushScalar, notSupported, fail] at h
   | .fixedSizeList _ _ _ _ _ _ _, x, b', _, _, _, _, _, _, h, _, _ => by simp [pushScalar, notSupported, fail] at h
   | .map _ _ _ _ _ _, x, b', _, _, _, _, _, _, h, _, _ => by simp [pushScalar, notSupported, fail] at h
